@@ -69,6 +69,7 @@ fn main() {
         "rpc-run" => rpc::run(rest),
         "rpc-free" => rpc::run_free(rest),
         "rpc-stall" => rpc::run_stall(rest),
+        "rpc-peers" => rpc::run_peers(rest),
         "inbound-run" => inbound::run(rest),
         "localproc-run" => localproc::run(rest),
         "localproc-race" => localproc::run_race(rest),
